@@ -17,7 +17,7 @@ import numpy as np
 from . import sym as S
 from . import npx
 from . import engine as E
-from .engine import Ctx, Smt, Infeasible, Inconclusive, SkipPoint
+from .engine import Ctx, Smt, Infeasible, Inconclusive, SkipPoint, HarnessError
 
 VERIF = os.path.dirname(os.path.dirname(os.path.abspath(__file__)))
 REPLAY_DIR = os.path.join(VERIF, 'replays')
@@ -197,6 +197,8 @@ def run_float(unit, assignment, opts=None):
             unit.harness()(ctx, **unit.kwargs)
     except SkipPoint:
         return None, 'skip'
+    except HarnessError as e:
+        return None, 'harness-error: %s' % e
     except Exception as e:
         tb = traceback.format_exc().strip().splitlines()
         ctx.float_failures.append(('exception', '%s: %s | %s' % (type(e).__name__, str(e)[:200],
